@@ -311,6 +311,64 @@ def run_histories(ctx, out):
                 out.violation("one run over sources with backup-like names: " + problem, rep)
         shutil.rmtree(d, ignore_errors=True)
 
+    # ---- the destination entry is a symbolic LINK to a regular file that lives in another directory, and numbered backups
+    #      of that name already sit next to the link: the entry that is replaced is the link (it is what gets renamed to
+    #      <name>.~N~, keeping the old version reachable), N is chosen among the backups NEXT TO THE LINK, none of which changes
+    def lstate(dd):
+        st = {}
+        for n in os.listdir(dd):
+            p_ = os.path.join(dd, n)
+            st[n] = ("link", os.readlink(p_)) if os.path.islink(p_) else ("file", open(p_, "rb").read())
+        return st
+    for k in range(6 if quick else 40):
+        d = os.path.join(d0, "lnk%d" % k)
+        os.makedirs(os.path.join(d, "s"))
+        os.makedirs(os.path.join(d, "t"))
+        os.makedirs(os.path.join(d, "store"))
+        driver = ["parfile", "parblock"][k % 2]
+        open(os.path.join(d, "store", "f.txt"), "wb").write(b"generation 0\n")
+        os.symlink(rng.choice(["../store/f.txt", os.path.join(d, "store", "f.txt")]), os.path.join(d, "t", "f.txt"))
+        pre = rng.choice([[1], [1, 3], [2, 7], []])
+        for n in pre:
+            open(os.path.join(d, "t", "f.txt.~%d~" % n), "wb").write(b"kept backup %d\n" % n)
+        if rng.random() < 0.5:
+            open(os.path.join(d, "store", "f.txt.~9~"), "wb").write(b"a backup in the OTHER directory\n")
+        hist = []
+        for step in (1, 2):
+            mode = rng.choice(["numbered", "numbered", "auto"])
+            content = b"generation %d\n" % step * 5
+            open(os.path.join(d, "s", "f.txt"), "wb").write(content)
+            before_t, before_store = lstate(os.path.join(d, "t")), lstate(os.path.join(d, "store"))
+            argv = [ctx.bins["xcp"], "--driver", driver, "-w", "2", "--backup", mode, os.path.join("s", "f.txt"), os.path.join("t", "f.txt")]
+            r = xcp.run_plain(argv, d)
+            after_t, after_store = lstate(os.path.join(d, "t")), lstate(os.path.join(d, "store"))
+            hist.append(dict(mode=mode, exit=r.exit))
+            rep = dict(kind="destination-is-a-link", argv=argv, steps=hist, before=sorted(before_t), after=sorted(after_t),
+                       exit=r.exit, stderr=r.stderr[-300:])
+            out.case(("hist-link", driver, k, step, mode), nontrivial=True)
+            out.count("hist_destination_link")
+            if r.exit != 0:
+                break
+            nums_before = [int(n[len("f.txt.~"):-1]) for n in before_t if n.startswith("f.txt.~") and n.endswith("~") and n[len("f.txt.~"):-1].isdigit()]
+            expect_backup = (mode == "numbered") or bool(nums_before)
+            problem = None
+            for n, v in before_t.items():
+                if n != "f.txt" and after_t.get(n) != v:
+                    problem = "existing entry %s next to the link was %s" % (n, "removed" if n not in after_t else "replaced")
+            if not problem and expect_backup:
+                new = [n for n in after_t if n not in before_t]
+                okn = [n for n in new if n.startswith("f.txt.~") and after_t[n] == before_t["f.txt"]]
+                if len(new) != 1 or len(okn) != 1 or int(okn[0][len("f.txt.~"):-1]) <= max(nums_before + [0]):
+                    problem = "the old entry was not preserved as one fresh f.txt.~N~ with N > %d: new entries %r" % (max(nums_before + [0]), new)
+            if not problem and expect_backup and after_store != before_store:
+                problem = "the other directory changed although the entry was backed up first"
+            if not problem and expect_backup and after_t.get("f.txt") != ("file", content):
+                problem = "t/f.txt does not hold the new content"
+            if problem:
+                out.violation("overwrite of a destination that is a link, with backups beside it: " + problem, rep)
+                break
+        shutil.rmtree(d, ignore_errors=True)
+
     # ---- the destination cannot be opened for writing (it is a program being executed: ETXTBSY, which also stops root):
     #      a numbered / auto overwrite renames it away first, so the history still holds; -f / --force must not change that
     import subprocess
@@ -465,6 +523,7 @@ def run(ctx, out):
                 "on real directories with gaps, large numbers, look-alikes; (c) histories of 2-6 real xcp copies with changing "
                 "content and mode none/auto/numbered, names reached through a directory copy so non-UTF-8 names occur; (c') histories "
                 "in ONE run over several sources some of which are named like numbered backups (f.~1~ copied in, then f overwritten); (c'') histories "
+                "whose destination entry is a LINK to a file elsewhere with backups beside the link; histories "
                 "whose destination is a program BEING EXECUTED (cannot be opened for writing), with and without -f/--force; "
                 "(d) SIGKILL before/after every mutating call of one overwrite. non-trivial = candidate is a real backup or "
                 "shares the first byte / directory holds a backup / step overwrites an existing file; distinct by input")
